@@ -53,11 +53,23 @@ def gen_cases(ctx):
             k += 1
             c = gen_case(ctx, name, k)
             if vals is None:
-                vals_ = [0.4, 0.2, 0.05, 0.01] if c["params"]["statistic"] == "tstat" else [0.25, 0.5, 1.0, 2.0, 3.0]
+                vals_ = [0.4, 0.2, 0.05, 0.01, 0.0] if c["params"]["statistic"] == "tstat" else [0.25, 0.5, 1.0, 2.0, 3.0]
             else:
                 vals_ = vals
             i, j = sorted(ctx.rng.sample(range(len(vals_)), 2))
             c.update(kind="drift", key=key, loose=vals_[i], strict=vals_[j])
+            cases.append(c)
+    # the strictest legal t-test level (significance 0: an infinite quantile, a NaN threshold while the epoch's epsilons have no
+    # spread) against an ordinary one, for the detect_batch values that decide from the second batch on
+    for name in ("HDDDM", "CDBD"):
+        for db in (1, 2):
+            for _try in range(20):
+                k += 1
+                c = gen_case(ctx, name, k)
+                if c["params"].get("statistic") == "tstat" or "statistic" in c["params"]:
+                    break
+            c["params"]["statistic"], c["params"]["detect_batch"] = "tstat", db
+            c.update(kind="drift", key="significance", loose=ctx.rng.choice([0.2, 0.05]), strict=0.0)
             cases.append(c)
     for name, key, vals in WARN_KNOBS:
         for _ in range(ctx.scale(5, 40) if name in SLOW else ctx.scale(10, 100)):
